@@ -26,6 +26,7 @@ UNIT = dict(
     appends=[("src/object/mod.rs", "units/ops/harness.rs")],
     harnesses=_hs + [
         h("c09_rem_float_kind", ["C09"], "float remainder returns a Float (value not modelled: CBMC has no fmod)", kind="bounded", bound="result kind only"),
+        h("c09_is_zero_model", ["C09", "C08"], "Object::is_zero (the divide/modulo-by-zero guard) is true exactly for Integer 0, Byte 0 and Float +-0.0"),
         h("c09_neg_model", ["C09", "C08"], "unary minus: wrapping_neg on integers, IEEE negation on floats"),
         h("c09_shift_bitwise_model", ["C09", "C08"], "<< >> with the amount modulo 64, & | ^ bitwise, on all i64 pairs; no panic"),
         h("c09_compare_ii", ["C09"], "Integer x Integer: partial_cmp/>/>= exact, consistent with =="),
